@@ -31,6 +31,8 @@ class Rule:
         if isinstance(key, (list, tuple)):
             key = "|".join(str(k) for k in key)
         full = "%s|%s" % (self.rid, key)
+        if any(k == full for k, _, _ in self.fails):
+            return   # one finding per key (a rule evaluated on many paths reports the first witness)
         self.fails.append((full, msg, where))
 
     def require(self, cond, key, msg, where=None):
